@@ -1087,6 +1087,263 @@ func (r *c34Run) compressed(v *c34Vec, unit, salt int) {
 	}
 }
 
+// ---------------------------------------------------------------- (h) compressed pipeline: who closes the original
+
+// Behaviours of specs/wire/CompressedClose.tla (interleavings of the compressing goroutine and
+// the serving goroutine, the user's Close being non-atomic) are replayed: the moment of the
+// write error relative to the compressor's steps is forced with a gated original stream and a
+// gated writer.
+
+type c34Behaviour struct {
+	Hist    []string `json:"hist"`
+	Failed  bool     `json:"failed"`
+	Entered int      `json:"entered"`
+}
+
+// faultClass places SWriteError among the compressor's steps.
+func (b *c34Behaviour) faultClass() string {
+	idx := func(a string) int {
+		for i, x := range b.Hist {
+			if x == a {
+				return i
+			}
+		}
+		return -1
+	}
+	w := idx("SWriteError")
+	switch {
+	case w < 0:
+		return "none"
+	case idx("CReadDone") > w || idx("CReadDone") < 0:
+		return "during-read"
+	case idx("CCloseBegin") < 0 || idx("CCloseBegin") > w:
+		return "after-eof"
+	case idx("CCloseEnd") > w:
+		return "during-close"
+	}
+	return "after-close"
+}
+
+type c34GateStream struct {
+	content       []byte
+	calls         int
+	readGate      <-chan struct{} // the EOF-returning Read waits for it (write error during read)
+	holdClose     bool            // the first Close stays inside until a second one arrives or the window ends
+	window        time.Duration
+	entered       int32
+	cwe           int32
+	eofReturned   chan struct{}
+	closeEntered  chan struct{}
+	closeReturned chan struct{}
+	secondClose   chan struct{}
+	guardExpired  int32
+}
+
+func c34NewGateStream(content []byte) *c34GateStream {
+	return &c34GateStream{content: content, eofReturned: make(chan struct{}), closeEntered: make(chan struct{}),
+		closeReturned: make(chan struct{}), secondClose: make(chan struct{})}
+}
+
+func (g *c34GateStream) wait(ch <-chan struct{}) {
+	select {
+	case <-ch:
+	case <-time.After(90 * time.Second):
+		atomic.StoreInt32(&g.guardExpired, 1)
+	}
+}
+
+func (g *c34GateStream) Read(p []byte) (int, error) {
+	g.calls++
+	if g.calls == 1 && len(g.content) > 0 {
+		return copy(p, g.content), nil // content is smaller than every copy buffer
+	}
+	if g.readGate != nil {
+		g.wait(g.readGate)
+	}
+	if g.calls <= 2 {
+		close(g.eofReturned)
+	}
+	return 0, io.EOF
+}
+
+func (g *c34GateStream) Close() error {
+	switch atomic.AddInt32(&g.entered, 1) {
+	case 1:
+		close(g.closeEntered)
+		if g.holdClose {
+			select {
+			case <-g.secondClose:
+			case <-time.After(g.window):
+			}
+		}
+		close(g.closeReturned)
+	case 2:
+		close(g.secondClose)
+	}
+	return nil
+}
+
+type c34GateStreamBoth struct{ *c34GateStream }
+
+func (g c34GateStreamBoth) CloseWithError(error) error { atomic.AddInt32(&g.cwe, 1); return nil }
+
+// c34GateWriter accepts bytes until its gate opens (nil gate = never fails); the Write that
+// finds a gate waits for it and fails.
+type c34GateWriter struct {
+	g      *c34GateStream
+	gate   <-chan struct{}
+	failed chan struct{}
+	once   sync.Once
+	buf    bytes.Buffer
+}
+
+func (w *c34GateWriter) Write(p []byte) (int, error) {
+	if w.gate == nil {
+		return w.buf.Write(p)
+	}
+	w.g.wait(w.gate)
+	w.once.Do(func() { close(w.failed) })
+	return 0, errC34Fault
+}
+
+type c34GateConn struct {
+	net.Conn
+	w *c34GateWriter
+}
+
+func (c *c34GateConn) Write(p []byte) (int, error) {
+	if c.w.gate == nil {
+		return c.Conn.Write(p)
+	}
+	return c.w.Write(p)
+}
+
+func (r *c34Run) compressedClose(b *c34Behaviour, algo string, both bool, size int, window time.Duration) {
+	const bind = "CompressedClose"
+	class := b.faultClass()
+	v := &c34Vec{Sc: c34Sc{Owner: "resp", Kind: "compressed:" + algo + ":" + class, L: size, Closer: map[bool]string{true: "both", false: "closer"}[both], Fault: class, Post: "release"}}
+	g := c34NewGateStream(c34Bytes(size, 7))
+	g.window = window
+	w := &c34GateWriter{g: g, failed: make(chan struct{})}
+	switch class {
+	case "during-read":
+		w.gate = g.closeEntered // replaced below: fails at once
+		open := make(chan struct{})
+		close(open)
+		w.gate = open
+		g.readGate = w.failed
+	case "after-eof":
+		w.gate = g.eofReturned
+	case "during-close":
+		w.gate = g.closeEntered
+		g.holdClose = true
+	case "after-close":
+		w.gate = g.closeReturned
+	}
+	var stream io.Reader = g
+	if both {
+		stream = c34GateStreamBoth{g}
+	}
+	r.count(v, bind)
+	if algo == "server-gzip" {
+		s := &Server{
+			Handler: CompressHandler(func(ctx *RequestCtx) { ctx.SetBodyStream(stream, -1) }),
+			Logger:  c34NullLogger{},
+		}
+		pc := fasthttputil.NewPipeConns()
+		cli := pc.Conn1()
+		done := make(chan struct{})
+		go func() { s.ServeConn(&c34GateConn{Conn: pc.Conn2(), w: w}); close(done) }()  //nolint:errcheck
+		cli.SetDeadline(time.Now().Add(120 * time.Second))                              //nolint:errcheck
+		cli.Write([]byte("GET / HTTP/1.1\r\nHost: h\r\nAccept-Encoding: gzip\r\n\r\n")) //nolint:errcheck
+		var wire []byte
+		buf := make([]byte, 4096)
+		for {
+			n, err := cli.Read(buf)
+			wire = append(wire, buf[:n]...)
+			if err != nil {
+				break
+			}
+			if _, complete, _, perr := c34PeerBody("resp", wire); perr == nil && complete {
+				break
+			}
+		}
+		cli.Close()
+		g.wait(done)
+		g.wait(g.closeReturned)
+	} else {
+		var resp Response
+		resp.SetBodyStream(stream, -1)
+		switch algo {
+		case "gzip":
+			resp.gzipBody(CompressDefaultCompression)
+		case "deflate":
+			resp.deflateBody(CompressDefaultCompression)
+		case "br":
+			resp.brotliBody(CompressBrotliDefaultCompression)
+		case "zstd":
+			resp.zstdBody(CompressZstdDefault)
+		}
+		cs, ok := resp.bodyStream.(*compressedBodyStream)
+		if !ok {
+			vfInfra("c34 compressedClose: the body stream was not wrapped for " + algo)
+			return
+		}
+		bw := bufio.NewWriter(w)
+		err := resp.Write(bw)
+		if err == nil {
+			err = bw.Flush()
+		}
+		if (err != nil) != b.Failed {
+			r.viol(v, bind, "write-outcome", size, -1, "Response.Write returned %v, the behaviour has failed=%v", err, b.Failed)
+		}
+		g.wait(cs.done)
+		g.wait(g.closeReturned)
+		resp.Reset()
+	}
+	if atomic.LoadInt32(&g.guardExpired) != 0 {
+		vfInfra("c34 compressedClose: a gate did not open within 90s (" + algo + ", " + class + ")")
+		return
+	}
+	if n := int(atomic.LoadInt32(&g.entered)); n != b.Entered {
+		r.viol(v, bind, "close-count-at-end", size, -1,
+			"the original stream's Close was entered %d time(s), the specification allows exactly %d (write error %s, behaviour %v)", n, b.Entered, class, b.Hist)
+	}
+}
+
+func (r *c34Run) compressedCloseAll(t *testing.T) {
+	p := os.Getenv("VERIF_C34_SCHED")
+	if p == "" {
+		return
+	}
+	classes := map[string]*c34Behaviour{}
+	vfEachLine(t, p, func(line []byte) {
+		b := new(c34Behaviour)
+		if err := json.Unmarshal(line, b); err != nil {
+			t.Fatalf("bad behaviour %s: %v", line, err)
+		}
+		if _, ok := classes[b.faultClass()]; !ok {
+			classes[b.faultClass()] = b
+		}
+	})
+	window := time.Duration(vfEnvInt("VERIF_C34_CLOSE_WINDOW_MS", 500)) * time.Millisecond
+	var wg sync.WaitGroup
+	for _, b := range classes {
+		for _, algo := range []string{"gzip", "deflate", "br", "zstd", "server-gzip"} {
+			for _, both := range []bool{false, true} {
+				for _, size := range []int{1, 700} {
+					wg.Add(1)
+					go func(b *c34Behaviour, algo string, both bool, size int) {
+						defer wg.Done()
+						r.compressedClose(b, algo, both, size, window)
+					}(b, algo, both, size)
+				}
+			}
+		}
+	}
+	wg.Wait()
+}
+
 // ---------------------------------------------------------------- driver
 
 func TestVerifC34BodyStream(t *testing.T) {
@@ -1160,6 +1417,7 @@ func TestVerifC34BodyStream(t *testing.T) {
 		}(w)
 	}
 	wg.Wait()
+	run.compressedCloseAll(t)
 	vfStat(run.evals, run.nontriv, vfRec{"scenarios": len(vecs), "per_binding": run.perBind})
 	vfDone()
 }
